@@ -73,6 +73,15 @@ func poolConfigs(prop string, thorough bool) (cfgs []poolCfg, depth int) {
 							r.Name = c.Name + " root=bound+refreshing"
 							r.Setup = append(append([]string{}, b.Setup...), "pick(plain,,L,g,d1)", "adv(2)", "done(0,cde)")
 							add(r)
+							if !rr {
+								// a BIND call still in flight on a channel whose refresh is in
+								// flight (replacement connecting): its reply binds across the swap
+								f := c
+								f.Name += " root=bind-inflight+refreshing"
+								f.Setup = append(append([]string{}, c.Setup...), "pick(bind,,L,g)", "pick(plain,,L,g,d1)", "pick(plain,,L,g,d1)", "adv(2)", "done(2,cde)", fmt.Sprintf("state(%d,CONNECTING)", n))
+								f.A.MaxOpen = 3
+								add(f)
+							}
 						}
 					}
 				}
@@ -199,6 +208,17 @@ func poolConfigs(prop string, thorough bool) (cfgs []poolCfg, depth int) {
 					r.A.MaxSC = int(n) + 3
 					add(r)
 				}
+				if m[0] == 1 && m[1] == 1 && n == 1 {
+					// non-initial root: two consecutive refreshes without a response (k=2)
+					r := c
+					r.Name += " root=refreshed-twice"
+					r.Setup = append(append([]string{}, c.Setup...),
+						"pick(plain,,L,g,d1)", "adv(2)", "done(0,cde)", "state(1,CONNECTING)", "state(1,READY)",
+						"pick(plain,,L,g,d1)", "adv(3)", "done(0,cde)", "state(2,CONNECTING)", "state(2,READY)")
+					r.A.MaxSC = int(n) + 4
+					r.A.Fail = false
+					add(r)
+				}
 			}
 		}
 	case "C08":
@@ -218,8 +238,17 @@ func poolConfigs(prop string, thorough bool) (cfgs []poolCfg, depth int) {
 						c.A.Ctx = []string{"g,d1"}
 						c.A.Done = append(c.A.Done, "cde")
 						c.A.Adv = []int{2}
+						c.A.MaxSC = int(n) + 2
 					}
 					add(c)
+					if rf && wm == 100 {
+						// non-initial root: home down, the key is served by a stand-in whose
+						// refresh is in flight (replacement connecting)
+						r := c
+						r.Name += " root=standin-refreshing"
+						r.Setup = append(append([]string{}, c.Setup...), "state(0,IDLE)", "pick(bound,k1,L,g,d1)", "adv(2)", "done(0,cde)", fmt.Sprintf("state(%d,CONNECTING)", n))
+						add(r)
+					}
 				}
 			}
 		}
@@ -245,7 +274,7 @@ func poolConfigs(prop string, thorough bool) (cfgs []poolCfg, depth int) {
 		for _, m := range [][3]uint32{{1, 2, 1}, {2, 2, 100}} {
 			c := poolCfg{Name: fmt.Sprintf("C20 min=%d max=%d wm=%d", m[0], m[1], m[2]), Min: m[0], Max: m[1], WM: m[2], RefCalls: 1, RefMs: 1,
 				Setup: readyPool(int(m[0]))}
-			c.A = alphabet{Resolve: []string{"a1", "a2"}, ResErr: true, States: "basic", Cmds: []string{"plain"}, Gens: []string{"L"},
+			c.A = alphabet{Resolve: []string{"a1", "a2"}, ResErr: true, States: "basic", Shutdown: true, Cmds: []string{"plain"}, Gens: []string{"L"},
 				Ctx: []string{"g,d1"}, Done: []string{"ok", "cde"}, Adv: []int{2}, MaxOpen: 2, MaxSC: 4}
 			add(c)
 		}
